@@ -227,6 +227,91 @@ static int mode_openlist(const char *list_path)
 	return 0;
 }
 
+/* Stateful script: the same sequence of segment states, opens and calls is replayed through the Rust
+ * client by clientsim; outputs must be identical line for line.
+ *   W g f0..f6   write the whole segment with generation g and the 7 record fields
+ *   G g          set the generation only        V v   set the version only
+ *   O            (re)open the client            C     close it
+ *   N rs rn ms mn   clockbound_now() at these virtual readings */
+static int mode_script(const char *script_path, const char *shm_path)
+{
+	FILE *sf = fopen(script_path, "r");
+	if (!sf) {
+		perror("script");
+		return 3;
+	}
+	int fd = open(shm_path, O_RDWR | O_CREAT | O_TRUNC, 0644);
+	if (fd < 0) {
+		perror("shm file");
+		return 3;
+	}
+	clockbound_ctx *ctx = NULL;
+	char line[512];
+	while (fgets(line, sizeof line, sf)) {
+		if (line[0] == 'W') {
+			long g;
+			int64_t f[11] = {0};
+			if (sscanf(line + 1, "%ld %ld %ld %ld %ld %ld %ld %ld", &g, &f[0], &f[1], &f[2], &f[3], &f[4], &f[5], &f[6]) != 8)
+				continue;
+			write_segment(fd, (uint16_t)g, f);
+		} else if (line[0] == 'G') {
+			uint16_t g = (uint16_t)atol(line + 1);
+			if (pwrite(fd, &g, 2, 14) != 2)
+				return 3;
+		} else if (line[0] == 'V') {
+			uint16_t v = (uint16_t)atol(line + 1);
+			if (pwrite(fd, &v, 2, 12) != 2)
+				return 3;
+		} else if (line[0] == 'O') {
+			if (ctx)
+				clockbound_close(ctx);
+			struct guarded_err gerr;
+			memset(&gerr, CANARY, sizeof gerr);
+			ctx = clockbound_open(shm_path, &gerr.err);
+			if (ctx)
+				printf("OPEN OK\n");
+			else {
+				printf("OPEN ");
+				print_err(&gerr.err);
+			}
+		} else if (line[0] == 'C') {
+			if (ctx)
+				clockbound_close(ctx);
+			ctx = NULL;
+		} else if (line[0] == 'N') {
+			long a, b, c, d;
+			if (sscanf(line + 1, "%ld %ld %ld %ld", &a, &b, &c, &d) != 4)
+				continue;
+			if (!ctx) {
+				printf("NOCTX\n");
+				continue;
+			}
+			v_real.tv_sec = a;
+			v_real.tv_nsec = b;
+			v_mono.tv_sec = c;
+			v_mono.tv_nsec = d;
+			struct guarded_result g;
+			memset(&g, CANARY, sizeof g);
+			virtual_on = 1;
+			const clockbound_err *e = clockbound_now(ctx, &g.res);
+			virtual_on = 0;
+			if (!canaries_intact(g.before, sizeof g.before) || !canaries_intact(g.after, sizeof g.after)) {
+				printf("CANARY result structure overrun\n");
+				return 4;
+			}
+			if (e)
+				print_err(e);
+			else
+				printf("OK %ld %ld %ld %ld %d\n", (long)g.res.earliest.tv_sec, (long)g.res.earliest.tv_nsec, (long)g.res.latest.tv_sec, (long)g.res.latest.tv_nsec, (int)g.res.clock_status);
+		}
+	}
+	if (ctx)
+		clockbound_close(ctx);
+	close(fd);
+	fclose(sf);
+	return 0;
+}
+
 static int mode_order(const char *shm_path)
 {
 	int fd = open(shm_path, O_RDWR | O_CREAT | O_TRUNC, 0644);
@@ -265,6 +350,8 @@ int main(int argc, char **argv)
 		return mode_vectors(argv[2], argv[3]);
 	if (argc >= 3 && strcmp(argv[1], "open") == 0)
 		return mode_open(argv[2]);
+	if (argc >= 4 && strcmp(argv[1], "script") == 0)
+		return mode_script(argv[2], argv[3]);
 	if (argc >= 3 && strcmp(argv[1], "openlist") == 0)
 		return mode_openlist(argv[2]);
 	if (argc >= 3 && strcmp(argv[1], "order") == 0)
